@@ -16,7 +16,8 @@ def h_static(ctx):
     static_in = ctx.params["static_input"]
     hlib.reset_finam_state()
     out = fm.Output(name="out", info=fm.Info(time=None, grid=fm.NoGrid(1), units="m"), static=True)
-    inp = fm.Input(name="in", info=fm.Info(time=None, grid=None, units=None), static=static_in)
+    conv = ctx.flag("input_in_km")
+    inp = fm.Input(name="in", info=fm.Info(time=None, grid=None, units="km" if conv else None), static=static_in)
     out >> inp
     inp.ping()
     inp.exchange_info()
@@ -35,8 +36,9 @@ def h_static(ctx):
             d = inp.pull_data(t)
             got = list(np.asarray(d.magnitude, dtype=object).reshape(-1))
             ctx.check(d.shape == (1, 2), "static-shape")
+            ctx.check(d.units == fm.UNITS.Unit("km" if conv else "m"), "static-units", {"sig": f"pull{j}"})
             for a, b in zip(got, vals):
-                ctx.check(ctx.eq(a, b), "static-value-changed", {"sig": "static"})
+                ctx.check(ctx.eq(a, b / 1000 if conv else b), "static-value-changed", {"sig": f"static:pull{j}:km={conv}"})
             ctx.log(f"got{j}", got)
     if static_in:
         ctx.check(sum(calls) == 1, "static-input-fetched-more-than-once", {"sig": str(sum(calls))})
@@ -51,7 +53,7 @@ def h_static(ctx):
     d = inp.pull_data(None)
     got = list(np.asarray(d.magnitude, dtype=object).reshape(-1))
     for a, b in zip(got, vals):
-        ctx.check(ctx.eq(a, b), "static-value-changed-after-refused-push")
+        ctx.check(ctx.eq(a, b / 1000 if conv else b), "static-value-changed-after-refused-push")
 
 
 class Src(fm.TimeComponent):
